@@ -259,7 +259,12 @@ def hash_seed(rot: int, rev: bool, nimp: int, backend: int) -> bool:
     """
     tok.install_jinja_capture()
     syms = ['alpha', 'beta', 'gamma'][:nimp]
-    decls = [m.value_decl('root', m.oid('alpha', 3))]
+    # several symbols wait for the SAME later-declared parent (OID parent / base type): whatever container holds the
+    # postponed symbols, the order in which they are released must not depend on set iteration
+    decls = [m.value_decl('n1', m.oid('later', 1)), m.value_decl('n2', m.oid('later', 2)), m.value_decl('n3', m.oid('later', 3)),
+             m.type_decl('T1', seq('Later')), m.type_decl('T2', seq('Later')), m.type_decl('T3', seq('Later')),
+             m.value_decl('later', m.oid('root', 5)), m.textual_convention('Later', seq('Integer32')),
+             m.value_decl('root', m.oid('alpha', 3))]
     toks = m.module('M', [('OTHER-MIB', syms)], decls)
     other = {'OTHER-MIB': {'alpha': {'type': 'MibIdentifier', 'oid': (1, 9), 'origName': 'alpha'}}}
 
